@@ -17,11 +17,15 @@ EXTENDS Common, SequencesExt
 
 CONSTANTS EMIT
 Declared == {"T", "U", "V"}
-FieldUses == {{}, {"T"}, {"U"}, {"T", "U"}}
+FieldUses == {{}, {"T"}, {"U"}, {"T", "U"}}          \* (the longer lists below also use V)
 Fld3(u, s, fl) == [uses |-> u, skip |-> s, flatten |-> fl]
 Fld(u, s) == Fld3(u, s, FALSE)
 Fields == {Fld(u, s) : u \in FieldUses, s \in BOOLEAN} \cup {Fld3(u, FALSE, TRUE) : u \in FieldUses}
 FieldSeqs == {<<>>} \cup {<<f>> : f \in Fields} \cup {<<f, g>> : f \in Fields, g \in {Fld({"U"}, FALSE), Fld({"T"}, TRUE), Fld({}, FALSE)}}
+             \* longer lists in which a parameter is used again before another one's first use (the answer is a union, not a count)
+             \cup {<<Fld({"T"}, FALSE), Fld({"T"}, FALSE), Fld({"T"}, FALSE), Fld({"U"}, FALSE)>>,
+                   <<Fld({"T", "U"}, FALSE), Fld({"T"}, FALSE), Fld({"V"}, FALSE)>>,
+                   <<Fld({"T"}, FALSE), Fld({"T"}, TRUE), Fld({"T", "U"}, FALSE), Fld({"V"}, FALSE), Fld({"U"}, FALSE)>>}
 Var(fs, s) == [fs |-> fs, skip |-> s]
 
 VARIABLES kind, fields, variants, out
